@@ -20,6 +20,11 @@ RULE = ("hand-written catalogue (the shape of defect F9 [hosts; redirect; cache]
         "+ every fourth random case a program around one dual_selector (prefer_ipv4/6, pass and block, known names) or "
         "one fallback over two sub-sequences (answering / failing / empty branches, standing by or not) with caches, "
         "redirects and forwarders around and inside "
+        "+ lazy-cache cases (shared with C15): priming query, VerifC10Backdate, an overlapping pair of stale hits behind a "
+        "rendezvous with the refresh held and failing, clients with other ids with and without OPT, refreshes that fail "
+        "or succeed, fresh hits afterwards - every stale hit must carry its own id "
+        "+ copying-plugin cases now regularly with extended rcodes 16..23 and 4095 from the upstream under dual_selector "
+        "and fallback with a client OPT "
         "+ the REAL servers of pkg/server in front of EntryHandler over the stateless chain [hosts; forward]: ServeUDP on a "
         "loopback socket, ServeTCP on a loopback listener (a connection per query, and all pipelined queries of a case "
         "back to back on one connection, replies matched by id), the DoH handler behind a loopback HTTP server by GET and "
@@ -43,7 +48,9 @@ ASSUMPTIONS = [
     "observed UDP reply); responses carrying TSIG are outside that contract and outside the generator",
     "the pack function succeeds on a message of at most 65535 bytes unless its rcode is extended and it has no OPT",
     "Qtype and Qclass are 16 bit values; a record has type 41 exactly when miekg represents it as *dns.OPT",
-    "the lazy cache refresh is NOT modelled",
+    "lazy cache: the background refresh is modelled in sequence before the foreground continuation (the driver makes "
+    "overlapping hits meet at a rendezvous with the upstream held, so that this is an equivalent order); staleness is "
+    "produced with VerifC10Backdate",
     "the transports are transparent: the model of a query arriving through ServeUDP / ServeTCP / the DoH handler is "
     "Handle on the unpacked message with FromUDP set for UDP only (checked on the real servers for a sample of queries "
     "per run; DoT/DoQ/HTTP3 listeners share these code paths and are not run). A UDP query that must stay unanswered is "
@@ -80,5 +87,5 @@ LEVEL_TEXT = ("Theorems in coq/Properties/C03.v for EVERY sequence program (any 
               "question, QR and RA set, over UDP within max(512, advertised); a malformed one gets none — whatever the "
               "transport of arrival).")
 LEVEL_NOTE = ("Trusted: Coq kernel + vm_compute; hand-written model tied to the code by the differential run; contracts of "
-              "miekg Truncate/Pack; upstreams echo the question. Not covered: lazy cache refresh, the timers of "
-              "fallback/dual_selector, the socket-level servers. No axioms.")
+              "miekg Truncate/Pack; upstreams echo the question. Not covered: the timers of fallback/dual_selector "
+              "and real interleavings of the lazy refresh other than the arranged ones; DoT/DoQ/HTTP3 listeners. No axioms.")
